@@ -13,5 +13,12 @@ TRUSTED_BASE = ["harness/cache_corr.py: in-memory stores with one strictly incre
 def run(ctx):
     camp = cache_corr.Campaign(ctx)
     cache_corr.history_campaign(ctx, camp, ctx.n(60, 1200), ctx.n(6, 8))
+    import cache_files
+    cache_files.run_file_histories(ctx, camp.found)     # real file stores, real modified times
     camp.eval_model()
     camp.file({"C05"})
+    import engine_corr
+    ec = engine_corr.campaign(ctx, set())       # 'each exactly once' under controlled schedules: a duplicate start is a C05 failure too
+    for prop, key, what, replay in ec.found:
+        if prop == "C04" and key == "started-twice":
+            ctx.fail("engine:" + key, what + " (a rebuilt value would be computed / written twice)", replay)
